@@ -1,159 +1,45 @@
 """C05 (adversarial backend during a snapshot): WHAT the chunk producer puts in the upload queue and WHAT a worker hands to the
-backend when `exists` answers False — read from the AST of `Repository.snapshot` (`_chunk_producer`, `_worker`).
+backend when `exists` answers False — read from the paths of the functions under `Repository.snapshot` (tools/symflow.py,
+tools/replicat_facts.py::snapshot_queue).
 
 The backend decides, per chunk, whether the queued object is uploaded (`exists` may answer anything: eventual consistency, another
 client's clean / delete between two calls).  Secrecy for EVERY such schedule therefore needs: in an encrypted repository the
 object queued for EVERY chunk is the output of `props.encrypt`, whatever else the producer knows about the chunk.
 
-`chunkQueuedIsCiphertext` is `true` only when every value that can flow into `_SnapshotChunk(contents=…)` is selected by a test
-that is exactly `self.props.encrypted` (if-statement or conditional expression, either polarity, the flag may be held in a local):
-`encrypt(<chunk>, …)` when it holds, the plain chunk otherwise.  Any extra condition on the encryption branch, a second assignment,
-an unrecognised shape ⇒ `false` + a note; `ReplicatModel/SymBackend.lean` then queues the plain chunk and the lemmas behind
-`adversarial_backend_public` (Properties/C05.lean) stop compiling.
-`chunkUploadIsQueuedContents`: the worker uploads a stream over `chunk.contents` at `chunk.location`, and only in the branch taken
-when `exists` is falsy.
+The producer is the function that puts a record on a queue for each chunk of `props.chunkify(…)`, the worker the function that calls
+`backend.upload_stream`; which field of the record is the payload and which the location is read off the worker's upload call, so
+neither the names of the two functions nor those of the record and its fields matter.
+`chunkQueuedIsCiphertext` is `true` only when on EVERY path to the `put` the repository's `encrypted` flag has been decided and the
+payload is `encrypt(<chunk>, …)` when it holds and the plain chunk otherwise (if-statement, conditional expression, early `continue`,
+either polarity, the flag held in a local, the encryption moved into a helper: all the same paths).  Any extra condition under which
+an encrypted repository queues the plain chunk is a path that violates this ⇒ `false` + a note; `ReplicatModel/SymBackend.lean` then
+queues the plain chunk and the lemmas behind `adversarial_backend_public` (Properties/C05.lean) stop compiling.
+`chunkUploadIsQueuedContents`: every `upload_stream` of the worker sends a stream over the payload field of a record taken from the
+queue to the location field of that record, and only on paths where `exists(<that location>)` answered false; no other upload.
 """
-import ast
+import sys
+from pathlib import Path
+
+sys.path.insert(0, str(Path(__file__).resolve().parent.parent))
+import replicat_facts as rf  # noqa: E402
+import symflow_fmt as symflow  # noqa: E402
 
 
 def _b(x):
     return 'true' if x else 'false'
 
 
-def _is_enc_flag(node, aliases):
-    """node is `self.props.encrypted` (or a local that was assigned exactly that, once)"""
-    if ast.unparse(node) == 'self.props.encrypted':
-        return True
-    return isinstance(node, ast.Name) and node.id in aliases
-
-
-def _polarity(test, aliases):
-    """True: test ≡ encrypted; False: test ≡ not encrypted; None: anything else"""
-    if _is_enc_flag(test, aliases):
-        return True
-    if isinstance(test, ast.UnaryOp) and isinstance(test.op, ast.Not) and _is_enc_flag(test.operand, aliases):
-        return False
-    return None
-
-
-def _is_encrypt_of(node, plain):
-    """`<x>.encrypt(<plain>, <key>)`"""
-    return (isinstance(node, ast.Call) and isinstance(node.func, ast.Attribute) and node.func.attr == 'encrypt'
-            and len(node.args) == 2 and not node.keywords and ast.unparse(node.args[0]) == plain)
-
-
-def _assigns(node, var):
-    """every node below `node` that binds the local `var`"""
-    out = []
-    for n in ast.walk(node):
-        if isinstance(n, (ast.Assign, ast.AugAssign, ast.AnnAssign, ast.NamedExpr)):
-            tg = n.targets if isinstance(n, ast.Assign) else [n.target]
-            if any(isinstance(t, ast.Name) and t.id == var for t in tg):
-                out.append(n)
-    return out
-
-
-def _branch_value(stmts, var):
-    """the single top-level `var = value` of a branch (nothing else in the branch binds var) → value | None"""
-    direct = [st for st in stmts if isinstance(st, ast.Assign) and len(st.targets) == 1 and isinstance(st.targets[0], ast.Name) and st.targets[0].id == var]
-    every = [n for st in stmts for n in _assigns(st, var)]
-    return direct[0].value if len(direct) == 1 and len(every) == 1 else None
-
-
 def section(ctx):
-    src = (ctx.REPO / 'replicat' / 'repository.py').read_text()
-    tree = ast.parse(src)
-    notes = ctx.notes
-    cp = ctx.find_func(tree, 'Repository', 'snapshot', '_chunk_producer')
-    queued_ok = False
-    why = '_chunk_producer not found'
-    if cp is not None:
-        why = None
-        loop_var = None
-        for n in ast.walk(cp):
-            if isinstance(n, ast.For) and isinstance(n.target, ast.Name):
-                loop_var = n.target.id
-                break
-        aliases = set()
-        counts = {}
-        for n in ast.walk(cp):
-            if isinstance(n, ast.Assign) and len(n.targets) == 1 and isinstance(n.targets[0], ast.Name):
-                counts[n.targets[0].id] = counts.get(n.targets[0].id, 0) + 1
-        for n in ast.walk(cp):
-            if isinstance(n, ast.Assign) and len(n.targets) == 1 and isinstance(n.targets[0], ast.Name) \
-                    and ast.unparse(n.value) == 'self.props.encrypted' and counts[n.targets[0].id] == 1:
-                aliases.add(n.targets[0].id)
-        made = [c for c in ast.walk(cp) if isinstance(c, ast.Call) and ast.unparse(c.func).endswith('_SnapshotChunk')]
-        contents = [k.value for c in made for k in c.keywords if k.arg == 'contents']
-        if loop_var is None or len(made) != 1 or len(contents) != 1:
-            why = 'no single `_SnapshotChunk(contents=…)` inside a `for <chunk> in …` loop'
-        else:
-            val = contents[0]
-
-            def selected(node_true, node_false):
-                return _is_encrypt_of(node_true, loop_var) and ast.unparse(node_false) == loop_var
-
-            if isinstance(val, ast.IfExp):
-                pol = _polarity(val.test, aliases)
-                queued_ok = pol is not None and (selected(val.body, val.orelse) if pol else selected(val.orelse, val.body))
-                if not queued_ok:
-                    why = 'conditional expression for `contents` is not `encrypt(chunk, …) if self.props.encrypted else chunk`'
-            elif isinstance(val, ast.Name):
-                var = val.id
-                assigning = _assigns(cp, var)
-                ifs = [n for n in ast.walk(cp) if isinstance(n, ast.If) and any(a in list(ast.walk(n)) for a in assigning)]
-                # the innermost-enclosing-if structure must be ONE if/else whose two branches assign var once each …
-                top = [n for n in ifs if not any(n is not m and n in list(ast.walk(m)) for m in ifs)]
-                if len(assigning) == 1 and isinstance(assigning[0], ast.Assign) and isinstance(assigning[0].value, ast.IfExp) and not ifs:
-                    v = assigning[0].value
-                    pol = _polarity(v.test, aliases)
-                    queued_ok = pol is not None and (selected(v.body, v.orelse) if pol else selected(v.orelse, v.body))
-                    if not queued_ok:
-                        why = f'`{var}` is not `encrypt(chunk, …) if self.props.encrypted else chunk`'
-                elif len(top) == 1 and len(ifs) == 1 and len(assigning) == 2:
-                    node = top[0]
-                    pol = _polarity(node.test, aliases)
-                    a, b = _branch_value(node.body, var), _branch_value(node.orelse, var)
-                    if pol is None:
-                        why = f'the test selecting what is queued is `{ast.unparse(node.test)}`, not exactly `self.props.encrypted`'
-                    elif a is None or b is None:
-                        why = f'`{var}` is not assigned exactly once in each branch'
-                    else:
-                        queued_ok = selected(a, b) if pol else selected(b, a)
-                        if not queued_ok:
-                            why = f'branches assign `{ast.unparse(a)}` / `{ast.unparse(b)}`, expected encrypt(chunk, …) / chunk'
-                else:
-                    why = f'`{var}` (queued contents) is assigned {len(assigning)} time(s) under {len(ifs)} if-statement(s): shape not recognised'
-            else:
-                why = f'`contents={ast.unparse(val)}`: shape not recognised'
-    if not queued_ok:
-        notes['snapshot.queue'] = why or 'queued chunk contents not recognised as ciphertext-whenever-encrypted'
-    ctx.emit(f'def chunkQueuedIsCiphertext : Bool := {_b(queued_ok)}')
-
-    # ---------------------------------------------------------------- the worker: upload of the queued contents iff `exists` is falsy
-    wk = ctx.find_func(tree, 'Repository', 'snapshot', '_worker')
-    ctx.fp('repository.Repository.snapshot._worker', wk)
-    up_ok = False
-    if wk is not None:
-        ex_vars = set()
-        for n in ast.walk(wk):
-            if isinstance(n, ast.Assign) and len(n.targets) == 1 and isinstance(n.targets[0], ast.Name):
-                v = n.value.value if isinstance(n.value, ast.Await) else n.value
-                if isinstance(v, ast.Call) and ast.unparse(v.func).endswith('._exists') and [ast.unparse(a) for a in v.args] == ['chunk.location']:
-                    ex_vars.add(n.targets[0].id)
-        for n in ast.walk(wk):
-            if not isinstance(n, ast.If):
-                continue
-            pos = isinstance(n.test, ast.Name) and n.test.id in ex_vars
-            neg = isinstance(n.test, ast.UnaryOp) and isinstance(n.test.op, ast.Not) and isinstance(n.test.operand, ast.Name) and n.test.operand.id in ex_vars
-            if not (pos or neg):
-                continue
-            absent, present = (n.orelse, n.body) if pos else (n.body, n.orelse)
-            ups_absent = [c for st in absent for c in ast.walk(st) if isinstance(c, ast.Call) and 'upload_stream' in ast.unparse(c)]
-            ups_present = [c for st in present for c in ast.walk(st) if isinstance(c, ast.Call) and 'upload' in ast.unparse(c.func)]
-            streams = [a for st in absent for a in ast.walk(st) if isinstance(a, ast.Call) and ast.unparse(a.func).endswith('BytesIO')]
-            up_ok = (len(ups_absent) == 1 and not ups_present and 'chunk.location' in [ast.unparse(a) for a in ups_absent[0].args]
-                     and len(streams) == 1 and [ast.unparse(a) for a in streams[0].args] == ['chunk.contents'])
-    if not up_ok:
-        notes['snapshot.worker_upload'] = 'worker: `if exists: … else: upload_stream(chunk.location, BytesIO(chunk.contents), …)` not recognised'
-    ctx.emit(f'def chunkUploadIsQueuedContents : Bool := {_b(up_ok)}')
+    an = symflow.analyzer_for(ctx.REPO)
+    tree = an.mods['repository'].tree
+    ctx.fp('repository.Repository.snapshot._worker', ctx.find_func(tree, 'Repository', 'snapshot', '_worker'))
+    try:
+        q = rf.snapshot_queue(an)
+    except Exception as e:  # noqa: BLE001
+        q = dict(queued_is_ciphertext=False, upload_is_queued=False, why=f'analysis failed: {e!r}')
+    if not q.get('queued_is_ciphertext'):
+        ctx.notes['snapshot.queue'] = q.get('why') or 'queued chunk contents not recognised as ciphertext-whenever-encrypted'
+    ctx.emit(f'def chunkQueuedIsCiphertext : Bool := {_b(q.get("queued_is_ciphertext"))}')
+    if not q.get('upload_is_queued'):
+        ctx.notes['snapshot.worker_upload'] = q.get('why') or 'worker: upload of the queued payload at the queued location iff `exists` is falsy not recognised'
+    ctx.emit(f'def chunkUploadIsQueuedContents : Bool := {_b(q.get("upload_is_queued"))}')
